@@ -54,6 +54,7 @@ func vh_SAE() {
 	var sent *AppendEntriesRequest
 	var mid vSnap
 	var resp AppendEntriesResponse
+	rpcFailed := false
 	n.tr.onAE = func(addr string, req AppendEntriesRequest) (AppendEntriesResponse, error) {
 		sent = &req
 		at := vSnapshotNode(n)
@@ -78,6 +79,7 @@ func vh_SAE() {
 		vHavocScalars(n, "h", []State{Leader, Follower, Candidate})
 		mid = vSnapshotNode(n)
 		if vNondetBool("rpc.fails") {
+			rpcFailed = true
 			return AppendEntriesResponse{}, errVBackground
 		}
 		resp = AppendEntriesResponse{Term: vNondetU64("resp.term"), Success: vNondetBool("resp.success"), Index: vNondetU64("resp.index")}
@@ -103,6 +105,9 @@ func vh_SAE() {
 	vAssert(vImplies(vAnd(post.term == mid.term, mid.votedFor != ""), post.votedFor == mid.votedFor), "C02|C08.vote-stable(G2)")
 	vAssert(vImplies(vAnd(mid.state == Leader, post.state != Leader), post.term > mid.term), "C16.leader-steps-down-only-on-higher-term")
 	vAssert(vAnd(post.logLen == mid.logLen, post.commit == mid.commit), "C01|C07.sender-never-rewrites-log")
+	if !rpcFailed && mid.state == Leader && r.isMember(target) {
+		vAssert(vImplies(resp.Term > mid.term, vAnd(post.term == resp.Term, post.state == Follower)), "C08|C15.newer-reply-term-deposes-the-sender")
+	}
 	if f == nil {
 		return
 	}
